@@ -36,6 +36,19 @@ func (m *MonC09) OnReq(w *World, r *Req) {
 		}
 		m.pausedBy[r.Key()] = who
 	}
+	// a paused deployment that finds a revision already Paused (by the archive step, by somebody
+	// else) marks it as paused by itself: from then on the pause is the parent's and it may release it
+	if !r.DryRun && r.IsWrite() && r.Succeeded() && isObjectSetKind(r.GVK.Kind) && r.GVK.Group == PKOGroup && r.After != nil && p != nil && isODKind(p.Ctrl) &&
+		store.Str(r.After, "spec", "lifecycleState") == "Paused" && store.Annotations(r.After)[annPausedByParent] == "true" {
+		if o := ownerOfPass(p); o != nil {
+			if b, _ := store.Get(o, "spec", "paused").(bool); b {
+				if m.pausedBy == nil {
+					m.pausedBy = map[store.Key]string{}
+				}
+				m.pausedBy[r.Key()] = "parent"
+			}
+		}
+	}
 	if p == nil || r.DryRun || !r.IsWrite() {
 		return
 	}
@@ -114,6 +127,18 @@ func (m *MonC09) OnQuiescent(w *World, epoch int) {
 			m.touch()
 			if store.Int(o, "status", "revision") == 0 {
 				continue // never got as far as reconciling phases (waiting for previous revisions)
+			}
+			missing := false
+			for _, ph := range phasesInfo(o, w.sliceLookup(o)) {
+				if ph.MissingSlice != "" {
+					missing = true
+				}
+			}
+			if missing {
+				// a referenced ObjectSlice is gone: every pass fails while loading it, nothing listed
+				// in it is known, nothing can be probed or reported (the ObjectSet writes nothing either)
+				w.Stats.Probe("c09-paused-with-missing-slice")
+				continue
 			}
 			if !CondTrue(o, "Paused") {
 				w.Report(Violation{Property: "C09", Rule: "paused-reporting", Sig: "paused-condition", Msg: fmt.Sprintf("at quiescence paused %s does not report Paused=True (conditions %v)", k, Conditions(o))})
